@@ -188,10 +188,11 @@ type Exec struct {
 	Horizon    int
 	HitHorizon bool
 	// Livelock: the horizon was reached while one thread had been taking steps alone for the last 1000 steps or
-	// more - no other thread enabled at any of those points, no timer pending: nothing can ever change what that
-	// thread sees, so it spins for ever (creation site and pending operation of the spinner)
+	// more without changing any shared object - no other thread enabled at any of those points, no timer pending:
+	// nothing can ever change what that thread sees, so it spins for ever (creation site and pending operation of the spinner)
 	Livelock  string
 	solo      int
+	soloFP    uint64
 	LibPrefix string
 	PoolLIFO  bool
 	Aborted   bool
@@ -661,6 +662,28 @@ func (x *Exec) Key() [2]uint64 {
 	return [2]uint64{k.h1, k.h2}
 }
 
+func (x *Exec) sharedFingerprint() uint64 {
+	h := uint64(14695981039346656037)
+	mix := func(v uint64) { h = (h ^ v) * prime64 }
+	for _, c := range x.chans {
+		mix(uint64(len(c.buf)))
+		mix(uint64(c.NSend))
+		if c.closed {
+			mix(1)
+		}
+	}
+	for _, w := range x.wgs {
+		mix(uint64(w.n))
+	}
+	for _, m := range x.mus {
+		if m.held {
+			mix(2)
+		}
+	}
+	mix(uint64(len(x.Threads)))
+	return h
+}
+
 // Run executes root under the chooser until quiescence.
 func Run(root func(), ch Chooser, cfg func(*Exec)) *Exec {
 	x := &Exec{parked: make(chan *Thread), chooser: ch, Horizon: 5000}
@@ -714,10 +737,13 @@ func Run(root func(), ch Chooser, cfg func(*Exec)) *Exec {
 		for _, tr := range ts {
 			alone = alone && tr.t == x.last
 		}
-		if alone {
+		// "alone and getting nowhere": the shared objects (channel contents and closed flags, WaitGroup counters, locks)
+		// have not changed while the thread took its steps. A thread that fills a buffer or drains one is alone too,
+		// but it makes progress.
+		if fp := x.sharedFingerprint(); alone && fp == x.soloFP {
 			x.solo++
 		} else {
-			x.solo = 0
+			x.solo, x.soloFP = 0, fp
 		}
 		if x.Steps >= x.Horizon {
 			x.HitHorizon = true
